@@ -34,7 +34,7 @@ const RECV: &[&str] = &[
 const ARGS: &[&str] = &[
     "0", "1", "2", "3", "-1", "0.5", "NaN", "Infinity", "-Infinity", "-0", "300", "undefined", "null", "true", "'a'", "''", "'length'", "'0'", "'abc'", "10n",
     "[]", "[1, 2]", "({})", "({ length: 3, 0: 'a' })", "(x => x)", "((a, b) => a < b ? -1 : a > b ? 1 : 0)", "function () { return this }", "Symbol.iterator", "/b/g",
-    "({ valueOf() { return 2 } })", "({ toString() { return 'k' } })", "({ get x() { return 1 } })", "new Uint8Array(4)", "new ArrayBuffer(4)", "Object", "Array",
+    "({ valueOf() { return 2 } })", "({ toString() { return 'k' } })", "({ get x() { return 1 } })", "new Uint8Array(4)", "new ArrayBuffer(4)", "Object", "Set",
     "R0", "R1", "R2", "R3", "({ then(r) { r(1) } })", "({ [Symbol.toPrimitive]() { throw new TypeError('tp') } })", "'\\ud800'", "1000", "-300", "2.5",
 ];
 
